@@ -43,6 +43,8 @@
 #endif
 #if VT
 #include "c14_trk.h"
+#elif defined(H64)
+#include "c14_h64.h"      /* -DH64: functor returns uint64_t = (solver-chosen high word << 32) | hash; buckets must follow (unsigned int)hash % capacity */
 #else
 #include "c14_int.h"
 #endif
@@ -111,6 +113,18 @@ static uint32_t bucket_of(uint32_t h, uint64_t cap) { return cap == 20 ? h : (h 
 #ifdef VP_NATIVE
 static int script_on; static uint32_t HT[16];
 #endif
+uint32_t hh[N];                   /* -DH64: high word of the 64-bit functor result (arbitrary; the library must ignore it) */
+#ifdef H64
+uint64_t vp_hash64(uint64_t k) {
+#ifdef VP_NATIVE
+	if(script_on) return ((uint64_t)HT[(k + 7) % 16] << 32) | HT[k % 16];
+#endif
+	uint64_t r = 0; int f = 0;
+	for(int i = 0; i < N; i++) { int e = known[i] && k == key[i]; r = e ? (((uint64_t)hh[i] << 32) | hs[i]) : r; f |= e; }
+	VP_ASSERT(f, "hash functor called with a key that is neither stored in the map nor the argument of the operation");
+	return r;
+}
+#else
 uint32_t vp_hash(uint64_t k) {
 #ifdef VP_NATIVE
 	if(script_on) return HT[k % 16];
@@ -120,6 +134,7 @@ uint32_t vp_hash(uint64_t k) {
 	VP_ASSERT(f, "hash functor called with a key that is neither stored in the map nor the argument of the operation");
 	return r;
 }
+#endif
 
 /* allocator stub: pre-declared blocks chosen by request size (one chain node, one table per operation), protocol recorded */
 int n_node_alloc, n_tab_alloc, ta_freed, node_freed[N];
@@ -241,6 +256,9 @@ static void havoc(int allow_present, int allow_absent) {
 #endif
 	for(int i = 0; i < M; i++) {
 		VP_INPUT(key[i]); VP_INPUT(hs[i]); VP_INPUT(val[i]); in[i] = 1; known[i] = 1;
+#ifdef H64
+		VP_INPUT(hh[i]);
+#endif
 		for(int j = 0; j < i; j++) VP_ASSUME(key[j] != key[i]);
 #ifdef PROF
 		hs[i] = prof[i] + ((CAP == 10 && (hs[i] & 1)) ? 10u : 0u); bk[i] = prof[i];
@@ -253,6 +271,9 @@ static void havoc(int allow_present, int allow_absent) {
 	}
 	in[SP] = 0; known[SP] = 0;
 	VP_INPUT(pj); VP_INPUT(key[SP]); VP_INPUT(hs[SP]); VP_INPUT(val[SP]);
+#ifdef H64
+	VP_INPUT(hh[SP]);
+#endif
 	VP_ASSUME(pj >= -1 && pj < M && hs[SP] <= HLIM);
 	if(pj < 0) { VP_ASSUME(allow_absent); for(int i = 0; i < M; i++) VP_ASSUME(key[i] != key[SP]); known[SP] = 1; pk = key[SP]; }
 	else { VP_ASSUME(allow_present); pk = 0; for(int i = 0; i < M; i++) if(pj == i) pk = key[i]; }
@@ -378,7 +399,7 @@ void harness(void) {
 		VP_ASSERT(got, "remove() of a present key must return the stored value");
 		for(int i = 0; i < M; i++) if(pj == i) { VP_ASSERT((int32_t)out == val[i], "remove() must return the value stored under the key"); mem[i] = 0; }
 		known[SP] = 1; key[SP] = pk;                          /* the removed key stays hashable for the follow-up lookup */
-		for(int i = 0; i < M; i++) if(pj == i) { hs[SP] = hs[i]; known[i] = 0; }
+		for(int i = 0; i < M; i++) if(pj == i) { hs[SP] = hs[i]; hh[SP] = hh[i]; known[i] = 0; }
 		post(mem, M - 1, 0, pj);
 		VP_ASSERT(A(get)(&map, pk) == 0, "the key is still found after remove()");
 		WITNESS_PRESENT("remove present key reached");
@@ -426,6 +447,26 @@ void harness(void) {
 #endif
 }
 
+/* hash.hpp: the concrete functors are pure functions of the key (members of the family the steps quantify over); values compared with the defining formulas.
+ * CStringHash reads exactly up to the terminator of an exact-size buffer (standard pointer checks on). */
+#if !VT
+void harness_hash(void) {
+	uint64_t v; VP_INPUT(v);
+	VP_ASSERT(hs_u64(v) == (uint32_t)(v ^ (v >> 32)), "hash<uint64_t>: low word xor high word");
+	VP_ASSERT(hs_u64(v) == hs_u64(v), "hash<uint64_t> is a function of the key");
+	VP_ASSERT(hs_i64(v) == (uint32_t)((int64_t)v ^ ((int64_t)v >> 32)), "hash<int64_t>: low word xor sign-extended high word");
+	int len; VP_INPUT(len); VP_NATIVE_ONLY(if(getenv("VP_RANDOM")) len = (unsigned)len % 4;) VP_ASSUME(len >= 0 && len <= 3);
+	uint8_t c0, c1, c2; VP_INPUT(c0); VP_INPUT(c1); VP_INPUT(c2);
+	VP_NATIVE_ONLY(if(getenv("VP_RANDOM")) { c0 |= 1; c1 |= 1; c2 |= 1; }) VP_ASSUME(c0 && c1 && c2);
+	uint8_t s0[1] = {0}, s1[2] = {c0, 0}, s2[3] = {c0, c1, 0}, s3[4] = {c0, c1, c2, 0};
+	uint32_t ref = 0; const uint8_t cs[3] = {c0, c1, c2};
+	for(int i = 0; i < 3; i++) if(i < len) { ref = (ref << 8) | (ref >> 24); ref += (uint32_t)(int32_t)(int8_t)cs[i]; }
+	uint32_t h = len == 0 ? hs_cstr(s0) : len == 1 ? hs_cstr(s1) : len == 2 ? hs_cstr(s2) : hs_cstr(s3);
+	VP_ASSERT(h == ref, "CStringHash: rotate-left-8 and add, byte by byte up to the terminator");
+	VP_OBSERVE(h); VP_OBSERVE(hs_u64(v));
+	VP_WITNESS(0, "hash functors reached");
+}
+#endif
 #ifdef VP_NATIVE
 /* native validation (generated C vs real C++), build with -DM=11 -DCAP=10: a random history from the constructor over a small key universe
  * with a random 32-bit hash table; blocks come from the same pre-declared pool; every reachable state must satisfy the invariant the
